@@ -1975,26 +1975,9 @@ Qed.
 Lemma ssem_ucall n W nm e W' res :
   bop_of_name nm = None ->
   ssem n W (NCall (NName nm) [e]) = Some (W', res) ->
-  exists body mo fid, ft_body Bf nm = Some body /\ ft_arity Bf nm = 1 /\ lpure1 body = true /\
-    gval (w_glob W) nm = VFun mo fid /\ ft_val Bf nm = VFun mo fid /\
-    match den (w_glob W) e with
-    | Ok x => W' = wbump W /\ res = lden [x] (w_glob W) body /\
-              match res with Ok y => is_fun y = false | Fail _ => True end
-    | Fail err => W' = W /\ res = Fail err
-    end.
+  exists n', n = S n' /\ ucall_sem Bf n' W nm [e] = Some (W', res).
 Proof.
-  intros Hb. destruct n as [|n]; [discriminate|]. cbn [StmtSem.ssem]. rewrite Hb.
-  destruct (ft_body Bf nm) as [body|]; [|discriminate].
-  destruct (Z.eqb_spec (ft_arity Bf nm) 1) as [Ear|]; [|discriminate]. cbn [andb].
-  destruct (lpure1 body) eqn:Hlp; [|discriminate]. cbn [andb].
-  destruct (Nat.leb (height e) n && Nat.leb (height body) n); cbn [andb]; [|discriminate].
-  destruct (fun_eqb (gval (w_glob W) nm) (ft_val Bf nm)) eqn:Ef; [|discriminate].
-  apply fun_eqb_eq in Ef. destruct Ef as [Eg [mo [fid Ebf]]].
-  intros H. exists body, mo, fid. conj; [reflexivity|exact Ear|exact Hlp|congruence|exact Ebf|].
-  destruct (den (w_glob W) e) as [x|err]; [|injection H as <- <-; auto].
-  destruct (lden [x] (w_glob W) body) as [y|err].
-  - destruct (is_fun y) eqn:Ey; [discriminate H|]. injection H as <- <-. auto.
-  - injection H as <- <-. auto.
+  intros Hb. destruct n as [|n]; [discriminate|]. cbn [StmtSem.ssem]. rewrite Hb. intros H. exists n. auto.
 Qed.
 
 Lemma fetch_lcl0 v mid b0 ip fr ser x m1 mc :
@@ -2179,145 +2162,6 @@ Lemma ret_range : 0 <= RET < 128. Proof. unfold RET. lia. Qed.
 Lemma not_fun_is_fun y : is_fun y = false -> not_fun y.
 Proof. destruct y; cbn; intros H; [exact I..|discriminate H]. Qed.
 
-Lemma ucall_specS nm e fl d sel s s' w :
-  bop_of_name nm = None -> pure e = true -> 0 <= sel <= 2 -> wfcs s ->
-  withOpDepth 0 (pass fl) = tfl false ->
-  comp (NCall (NName nm) [e]) sel fl s = COk (w, s') ->
-  SpecS (NCall (NName nm) [e]) d sel s s' w.
-Proof.
-  intros Hb Hp Hsel Hwf Hfl H. rewrite comp_call1_unfold in H.
-  rewrite Hfl in H.
-  apply cbind_ok in H. destruct H as [u1 [sA [Hargs H]]].
-  apply cbind_ok in Hargs. destruct Hargs as [we [s1 [He Hargs]]].
-  apply cbind_ok in Hargs. destruct Hargs as [u2 [s2 [Hpush Hret]]]. apply cret_ok in Hret. destruct Hret as [_ ->].
-  apply (comp_pure_spec e Hp 0 (tfl false) s we s1 ltac:(lia) Hwf) in He. apply SpecD_lay in He.
-  destruct He as [code [K [A (L1 & W1 & Ee & Ok1 & _ & NT & X)]]].
-  assert (NK : K <> AddrTmp) by (apply NT; reflexivity).
-  assert (NI : K <> AddrInv) by (unfold okind, AddrStck, AddrTmp, AddrDS, AddrGbl, AddrInv in *; lia).
-  destruct (enc_src0 K A we (okind_range K Ok1) Ee) as [S0 _]. rewrite S0 in Hpush.
-  assert (Hp2 : lay s1 s2 (push_code K we) /\ rds s2 = rds s1 /\ nds s2 = nds s1 /\ wfcs s2).
-  { unfold push_code. rewrite (proj2 (Z.eqb_neq K AddrInv) NI) in Hpush. cbn [negb] in Hpush. rewrite andb_true_r in Hpush.
-    destruct (K =? AddrStck); cbn [negb] in Hpush.
-    - apply cret_ok in Hpush. destruct Hpush as [_ ->]. conj; [apply lay_refl|reflexivity|reflexivity|exact W1].
-    - apply emit_ok in Hpush. subst s2. rewrite Z.lor_comm. conj; try reflexivity.
-      + change [Z.lor (New PUSH) we] with ([] ++ [Z.lor (New PUSH) we]). apply lay_emit. apply lay_refl.
-      + apply wfcs_emitted. exact W1. }
-  destruct Hp2 as [Lp [Rd2 [Nd2 W2]]].
-  apply cbind_ok in H. destruct H as [addr [s3 [Hh H]]]. apply here_ok in Hh. destruct Hh as [-> ->].
-  apply cbind_ok in H. destruct H as [u3 [s4 [Hdbg H]]]. apply put_dbg_ok in Hdbg. destruct Hdbg as (R4 & N4 & D4 & ND4).
-  apply cbind_ok in H. destruct H as [wg [s5 [Href H]]].
-  cbn [comp_ref] in Href. apply cbind_ok in Href. destruct Href as [ix [s5' [Hds Href]]].
-  apply add_ds_ok in Hds. destruct Hds as [-> ->]. apply enc_ok in Href. destruct Href as [-> Ewg].
-  apply cbind_ok in H. destruct H as [wi [s6 [Hi H]]]. apply enc_ok in Hi. destruct Hi as [-> Ewi].
-  apply cbind_ok in H. destruct H as [u4 [s7 [Hem Hres]]].
-  apply emit_ok in Hem. subst s7. apply enc_ok in Hres. destruct Hres as [-> Ew].
-  set (instr := Z.lor (Z.lor wg (New CALL)) wi) in *.
-  assert (Hdi : decode instr = {| f_op := CALL; f_k0 := AddrGbl; f_k1 := AddrImm; f_k2 := 0; f_a0 := nds s4; f_a1 := 1; f_a2 := 0 |}).
-  { unfold instr. rewrite lor3_reorder.
-    apply (decode_op01 CALL AddrGbl (nds s4) AddrImm 1 wg wi call_range gbl_range imm_range Ewg Ewi). }
-  set (s5 := with_data s4 (VStr nm)) in *.
-  assert (L4 : lay s s4 (code ++ push_code K we)).
-  { destruct (lay_trans s s1 s2 _ _ L1 Lp) as (R & N & [dd D]). unfold lay. rewrite R4, N4, D4. conj; [exact R|exact N|exists dd; exact D]. }
-  assert (W4 : wfcs s4).
-  { destruct W2 as [A1 B1]. unfold wfcs. rewrite R4, N4, D4, ND4. split; assumption. }
-  assert (W5 : wfcs s5).
-  { destruct W4 as [A1 B1]. unfold wfcs, s5, with_data, zlen in *; cbn [rcs ncs rds nds List.length]. split; lia. }
-  exists ((code ++ push_code K we) ++ [instr]), AddrStck, 0. conj.
-  - apply lay_emit. destruct L4 as (R & N & [dd D]). unfold lay, s5, with_data; cbn [rcs ncs rds]. conj; try assumption.
-    exists (VStr nm :: dd). rewrite D. reflexivity.
-  - apply wfcs_emitted. exact W5.
-  - exact Ew.
-  - left. reflexivity.
-  - intros _. split; discriminate.
-  - intros n rr v mid m r W' res Hbc Hc Hdat Hm Hsp Hip HM.
-    apply (ssem_ucall _ _ _ _ _ _ Hb) in HM. destruct HM as (body & mo & fid & Hbody & Har & Hlp1 & Hg & Hbf & HM).
-    change (w_glob (wof v)) with (v_globals v) in *.
-    pose proof (code_at_nth v (ncs s) (code ++ push_code K we) instr [] Hc) as Hi_call.
-    apply code_at_app in Hc. destruct Hc as [Hc _].
-    assert (Hd1 : data_at v s1).
-    { destruct Lp as (_ & _ & [dp Dp]). intros i y Hy. apply Hdat. cbn [emitted rds s5 with_data rev].
-      apply znth_app_l. rewrite D4, Rd2. exact Hy. }
-    assert (Hname : znth (v_ds v) (nds s4) = Some (VStr nm)).
-    { apply Hdat. cbn [emitted rds s5 with_data]. rewrite (proj2 W4). apply znth_rev_cons. }
-    assert (XS : RunsS (fun W => Some (W, den (w_glob W) e)) false s s2 s1 (code ++ push_code K we) AddrStck 0).
-    { apply (value_on_stack _ s s1 s2 s1 code K A we).
-      - apply (RunsK_S (fun G => den G e) _ false s s1 s1 code K A _ X). intros G G' r0 E0. injection E0 as <- <-. auto.
-      - exact NK.
-      - exact NI.
-      - apply okind_skind. exact Ok1.
-      - exact Ee.
-      - destruct L1 as (_ & N & _). exact N.
-      - destruct Lp as (_ & N & _). exact N. }
-    pose proof (XS rr v mid m r (wof v) (den (v_globals v) e) Hbc Hc Hd1 Hm Hsp Hip eq_refl) as E.
-    destruct (den (v_globals v) e) as [x|err]; [|destruct HM as [-> ->]; exact E].
-    destruct HM as (-> & -> & Hnf).
-    destruct E as [k1 [m1 [r1 [Hs1 [Hm1 [Hc1 [Hi1 Ho]]]]]]]. rewrite SG_same in Hs1. rewrite set_world_same in Ho.
-    destruct Ho as [[_ [Hsp1 Hx1]]|[[E1 _]|[[E1 _]|[E1 _]]]]; try discriminate E1.
-    assert (Hm1' : cur_mid v r1 = Good mid) by (rewrite (cur_mid_ctx v r r1 Hc1); exact Hm).
-    assert (Hat : at_ip v r1 mid instr).
-    { split; [|exact Hm1']. rewrite Hi1. destruct L4 as (_ & N & _). rewrite <- N4, N. exact Hi_call. }
-    destruct (proj2 (proj2 Hbc) nm body mo fid Hb Hbody Hbf)
-      as (morph & fid' & fr & s0 & sb & wb & flb & Ef & Hpar & Hloc & Hfr & Hwf0 & Hn0 & Hcomp & Hod & Hdis & Hacc & Hcode & Hdatb).
-    rewrite Har in Hpar, Hloc. rewrite Hbf in Ef. injection Ef as <- <-.
-    assert (Hle1 : m_sp m1 <= zlen (m_stack m1)) by (destruct Hm1 as (_&_&_&_&_&B); lia).
-    destruct (call_enter rr v mid m1 r1 instr (nds s4) nm mo fid fr 1 (m_sp m) x 0 0 Hat Hdi Hname Hg Hpar Hloc Hfr
-                ltac:(lia) (proj1 Hsp) Hsp1 Hle1 (fun _ => Hx1)) as [mc [Hs2 [Hin [Hspc Hlec]]]].
-    replace (m_sp m + 1 + 1) with (m_sp m + 2) in Hspc by lia.
-    set (vb := vbump v) in *.
-    set (r2 := with_ip (with_ip r1 (fn_node mo - 1)) (r_ip (with_ip r1 (fn_node mo - 1)) + 1)).
-    (* the body, inside the frame *)
-    assert (Hlp : lpure [x] body = true) by (rewrite (lpure_len [x] [VNil] body eq_refl); exact Hlp1).
-    pose proof (LExprCorrect.comp_lpure_spec [x] body Hlp 0 flb s0 wb sb ltac:(lia) Hwf0 Hcomp) as SB.
-    destruct SB as (codeb & Kb & Ab & Rb & Nb & _ & Wb & Eb & Okb & _ & NTb & XB).
-    assert (NKb : Kb <> AddrTmp) by (apply NTb; assumption).
-    specialize (Hcode codeb Rb).
-    pose proof (code_at_nth v (ncs s0) codeb (Z.lor (New RET) wb) [] Hcode) as Hi_ret.
-    apply code_at_app in Hcode. destruct Hcode as [Hcodeb _].
-    assert (Hm2 : cur_mid vb r2 = Good mid).
-    { change (cur_mid vb r2) with (cur_mid v r2). rewrite (cur_mid_ctx v r1 r2); [exact Hm1'|reflexivity]. }
-    assert (Hip2 : r_ip r2 = ncs s0) by (unfold r2; cbn [with_ip r_ip]; lia).
-    assert (Hlfr : LExprCorrect.lfr [x] mc).
-    { right. destruct Hin as (F & _ & _ & _ & _ & X0 & _).
-      destruct (fp_at_app2 mc (m_fp m1) (m_sp m) (m_sp m + 1) F) as [F2 _].
-      exists (m_sp m). split; [exact F2|]. split; [lia|]. split; [unfold zlen; cbn [List.length]; lia|].
-      intros i x' Hi'. assert (i = 0).
-      { unfold znth in Hi'. destruct (Z.ltb_spec i 0); [discriminate Hi'|]. destruct (Z.to_nat i) as [|k] eqn:Ek; [lia|].
-        cbn in Hi'. destruct k; discriminate Hi'. }
-      subst i. cbn in Hi'. injection Hi' as <-. rewrite Z.add_0_r. exact (X0 eq_refl). }
-    pose proof (XB rr vb mid mc r2 Hcodeb Hdatb Hm2 ltac:(lia) Hlfr Hip2) as EB.
-    change (v_globals vb) with (v_globals v) in EB.
-    destruct (lden [x] (v_globals v) body) as [y|err].
-    + destruct EB as (m4 & r4 & Hs3 & Hm4 & Hc4 & Hi4 & _ & Ho4).
-      destruct (LExprCorrect.fetch_opnd vb mid (m_sp mc) mc Kb Ab y m4 r4 Ho4 NKb Hm4) as (m4' & Hf4 & Hm4' & Hsp4').
-      assert (Hin4 : in_frame 1 (m_sp m) (r_ip r1) fr (v_next v) x m1 m4').
-      { apply (in_frame_msame 1 (m_sp m) (r_ip r1) fr (v_next v) x m1 mc m4' (m_sp mc) Hin Hm4'); lia. }
-      set (iret := Z.lor (New RET) wb) in *.
-      assert (Hdr : decode iret = {| f_op := RET; f_k0 := Kb; f_k1 := 0; f_k2 := 0; f_a0 := Ab; f_a1 := 0; f_a2 := 0 |})
-        by (apply (decode_op0 RET Kb Ab wb ret_range (LExprCorrect.okind_range Kb Okb) Eb)).
-      assert (Hat4 : at_ip vb r4 mid iret).
-      { split; [rewrite Hi4, Nb; exact Hi_ret|]. change (cur_mid vb r4) with (cur_mid v r4).
-        rewrite (cur_mid_ctx v r1 r4); [exact Hm1'|]. rewrite Hc4. reflexivity. }
-      assert (Hle4 : m_sp m4' <= zlen (m_stack m4')) by (destruct Hm4' as (_&_&_&_&_&B); lia).
-      destruct (call_leave_gen rr vb mid m1 m4 m4' r4 iret 1 (m_sp m) (r_ip r1) fr (v_next v) x y Kb Ab 0 0 0 0
-                  Hat4 Hdr Hf4 Hin4 ltac:(lia) (proj1 Hsp) ltac:(lia) Hle4 (not_fun_is_fun y Hnf))
-        as [m5 [Hs4 (F5 & C5 & S5 & P5 & T5 & Hsp5 & Hle5 & Htop5)]].
-      exists (k1 + (1 + (List.length codeb + 1)))%nat, m5, (with_ip (with_ip r4 (r_ip r1)) (r_ip r1 + 1)).
-      rewrite steps_app, Hs1, steps_app, steps_one, Hs2. cbv beta iota. fold r2.
-      rewrite steps_app, Hs3, steps_one, Hs4. cbv beta iota. conj.
-      * reflexivity.
-      * destruct Hm1 as (F1 & C1 & S1 & P1 & T1 & B1). unfold msame.
-        split; [congruence|]. split; [congruence|]. split; [congruence|]. split; [exact (incl_tran P5 P1)|].
-        split; [rewrite T5; exact T1|lia].
-      * cbn [with_ip r_ctx]. rewrite Hc4. unfold r2. cbn [with_ip r_ctx]. exact Hc1.
-      * cbn [with_ip r_ip emitted ncs s5 with_data]. destruct L4 as (_ & N & _). rewrite Hi1. unfold zlen in *.
-        rewrite app_length in N. lia.
-      * destruct d; [unfold stack_effect; cbn; lia|].
-        left. conj; [reflexivity|lia|exact Htop5].
-    + destruct EB as (me & ipe & vals & Hs3).
-      exists (k1 + (1 + List.length codeb))%nat, me, ipe, vals.
-      rewrite steps_app, Hs1, steps_app, steps_one, Hs2. cbv beta iota. fold r2. rewrite Hs3.
-      replace (r_ctx r2) with (r_ctx r) by (unfold r2; cbn [with_ip r_ctx]; congruence). reflexivity.
-Qed.
 
 (* ================= read() ================= *)
 Lemma comp_call0_unfold nm sel fl :
@@ -2568,18 +2412,19 @@ Qed.
 
 (* what ssem says about a call that is not of the one-argument or read() shape *)
 Lemma ssem_callN n W nm args W' res :
-  (List.length args <> 1)%nat -> (args = [] -> String.eqb nm "read" = false) ->
+  (forall e, args = [e] -> bop_of_name nm = None) -> (args = [] -> String.eqb nm "read" = false) ->
   ssem n W (NCall (NName nm) args) = Some (W', res) ->
   exists n', n = S n' /\ bop_of_name nm = None /\ ucall_sem Bf n' W nm args = Some (W', res).
 Proof.
-  intros Hlen Hread H. destruct n as [|n]; [discriminate H|]. exists n. split; [reflexivity|].
-  destruct args as [|e1 [|e2 rest]]; [| exfalso; apply Hlen; reflexivity |]; cbn [StmtSem.ssem] in H.
+  intros Hone Hread H. destruct n as [|n]; [discriminate H|]. exists n. split; [reflexivity|].
+  destruct args as [|e1 [|e2 rest]]; cbn [StmtSem.ssem] in H.
   - rewrite (Hread eq_refl) in H. destruct (bop_of_name nm); [discriminate H|]. auto.
+  - rewrite (Hone e1 eq_refl) in H. split; [exact (Hone e1 eq_refl)|exact H].
   - destruct (bop_of_name nm); [discriminate H|]. destruct (String.eqb nm "read"); [discriminate H|]. auto.
 Qed.
 
 Lemma callN_specS nm args fl d sel s s' w :
-  forallb pure args = true -> (List.length args <> 1)%nat -> (args = [] -> String.eqb nm "read" = false) ->
+  forallb pure args = true -> (forall e, args = [e] -> bop_of_name nm = None) -> (args = [] -> String.eqb nm "read" = false) ->
   0 <= sel <= 2 -> wfcs s -> withOpDepth 0 (pass fl) = tfl false ->
   comp (NCall (NName nm) args) sel fl s = COk (w, s') ->
   SpecS (NCall (NName nm) args) d sel s s' w.
@@ -2618,9 +2463,7 @@ Proof.
     apply (ssem_callN _ _ _ _ _ _ Hlen Hread) in HM. destruct HM as (n' & -> & Hb & HM).
     unfold ucall_sem in HM. change (w_glob (wof v)) with (v_globals v) in HM.
     destruct (ft_body Bf nm) as [body|] eqn:Hbody; [|discriminate HM].
-    destruct (Z.eqb_spec (ft_arity Bf nm) (zlen args)) as [Har|]; [|discriminate HM]. cbn [andb] in HM.
-    destruct (lpure (repeat VNil (List.length args)) body) eqn:Hlp0; [|discriminate HM]. cbn [andb] in HM.
-    destruct (Nat.leb (heights args) n' && Nat.leb (height body) n'); cbn [andb] in HM; [|discriminate HM].
+    destruct (Nat.leb (heights args) n'); cbn [andb] in HM; [|discriminate HM].
     destruct (fun_eqb (gval (v_globals v) nm) (ft_val Bf nm)) eqn:Ef; [|discriminate HM].
     apply fun_eqb_eq in Ef. destruct Ef as [Hg [mo [fid Hbf]]]. rewrite Hbf in Hg.
     pose proof (code_at_nth v (ncs s) codeA instr [] Hc) as Hi_call.
@@ -2640,6 +2483,16 @@ Proof.
     destruct (proj2 (proj2 Hbc) nm body mo fid Hb Hbody Hbf)
       as (morph & fid' & fr & s0 & sb & wb & flb & Ef & Hpar & Hloc & Hfr & Hwf0 & Hn0 & Hcomp & Hod & Hdis & Hacc & Hcode & Hdatb).
     rewrite Hbf in Ef. injection Ef as <- <-.
+    destruct (Z.eqb_spec (ft_arity Bf nm) (zlen args)) as [Har|Near].
+    2:{ (* the wrong number of arguments: CALL refuses *)
+      injection HM as <- <-.
+      exists (k1 + 1)%nat, m1, (r_ip r1), [VFun mo fid].
+      rewrite steps_app, Hs1, steps_one.
+      rewrite (step_call v mid m1 r1 rr instr _ _ _ _ _ _ Hat Hdi), (fetch_gbl v mid m1 (nds s4) nm Hname). cbn [obind].
+      rewrite Hg, Hpar. unfold ar. change (Z.of_nat (List.length args)) with (zlen args).
+      rewrite (proj2 (Z.eqb_neq _ _) Near). cbn [negb lift]. rewrite SG_same, Hc1. reflexivity. }
+    destruct (lpure (repeat VNil (List.length args)) body) eqn:Hlp0; [|discriminate HM]. cbn [andb] in HM.
+    destruct (Nat.leb (height body) n'); [|discriminate HM].
     assert (Har' : ft_arity Bf nm = ar) by (rewrite Har; reflexivity).
     rewrite Har' in Hpar, Hloc.
     assert (Hle1 : m_sp m1 <= zlen (m_stack m1)) by (destruct Hm1 as (_&_&_&_&_&B); lia).
@@ -2707,11 +2560,11 @@ Proof.
   intros Hp Hsel Hwf Hfl H. destruct args as [|e [|e2 rest]].
   - destruct (String.eqb nm "read") eqn:Er.
     + apply String.eqb_eq in Er. subst nm. exact (rcall_specS fl d sel s s' w Hsel Hwf H).
-    + apply (callN_specS nm [] fl d sel s s' w Hp); try assumption; [discriminate|intros _; exact Er].
-  - cbn [forallb] in Hp. rewrite andb_true_r in Hp. destruct (bop_of_name nm) as [b|] eqn:Eb.
-    + exact (bcall_specS nm b e fl d sel s s' w Eb Hp Hsel Hwf Hfl H).
-    + exact (ucall_specS nm e fl d sel s s' w Eb Hp Hsel Hwf Hfl H).
-  - apply (callN_specS nm (e :: e2 :: rest) fl d sel s s' w Hp); try assumption; [discriminate|intros E0; discriminate E0].
+    + apply (callN_specS nm [] fl d sel s s' w Hp); try assumption; [intros e0 E0; discriminate E0|intros _; exact Er].
+  - destruct (bop_of_name nm) as [b|] eqn:Eb.
+    + cbn [forallb] in Hp. rewrite andb_true_r in Hp. exact (bcall_specS nm b e fl d sel s s' w Eb Hp Hsel Hwf Hfl H).
+    + apply (callN_specS nm [e] fl d sel s s' w Hp); try assumption; [intros e0 _; exact Eb|intros E0; discriminate E0].
+  - apply (callN_specS nm (e :: e2 :: rest) fl d sel s s' w Hp); try assumption; [intros e0 E0; discriminate E0|intros E0; discriminate E0].
 Qed.
 
 (* ================= g = nm(e), g = read() ================= *)
